@@ -74,6 +74,14 @@ fn call_native(x: XfnPtr, xs: &mut State) -> (r: Xresult)
 { unimplemented!() }
 
 //@use state.fns ::do_init
+//@use state.fns ::core_word_swap
+//@use state.fns ::core_word_dup
+//@use state.fns ::core_word_drop
+//@use state.fns ::core_word_depth
+//@use state.fns ::core_word_assert
+//@use state.fns ::vec_builder_begin
+//@use state.fns ::map_builder_begin
+//@use state.fns ::foreach_next
 
 impl Cell {
 //@use cell.fns Cell::cond_true assumed
@@ -82,6 +90,7 @@ impl Cell {
 impl PartialEq for Cell { #[verifier::external_body] fn eq(&self, other: &Self) -> bool { unimplemented!() } }
 impl From<Xstr> for Cell { #[verifier::external_body] fn from(x: Xstr) -> (r: Cell) { unimplemented!() } }
 impl From<f64> for Cell { #[verifier::external_body] fn from(x: f64) -> (r: Cell) { unimplemented!() } }
+impl From<usize> for Cell { #[verifier::external_body] fn from(x: usize) -> (r: Cell) { unimplemented!() } }
 impl From<i64> for Cell { #[verifier::external_body] fn from(x: i64) -> (r: Cell) { unimplemented!() } }
 impl core::ops::Deref for Xstr { type Target = str; #[verifier::external_body] fn deref(&self) -> &str { unimplemented!() } }
 
